@@ -6,6 +6,8 @@ XrSyntax (TLC enumerates all operator chains of 2 and 3 binary operators and pre
 of the documented grouping).  The harness renders the ASTs (random call spelling per call
 site: f(a,b) / a.f(b) / a op b / a[b]) and compares binding by binding, line by line."""
 import json
+import os
+import random
 
 import coregen
 import corecheck
@@ -187,8 +189,109 @@ def precedence(chk, tier):
     chk.sample({"chain": text(cases[len(cases) // 3]), "expected": cases[len(cases) // 3]["expect"]})
 
 
+# --------------------------------------------------------------------------------------------
+# float operators on values where the arithmetic is exact (acceptor XrFloatExact)
+
+def _dy(n, k):
+    while k > 0 and n % 2 == 0:
+        n, k = n // 2, k - 1
+    return {"n": n, "k": k}
+
+
+def _flit(d):
+    t = repr(d["n"] / (2 ** d["k"]))
+    if "e" in t or "inf" in t:
+        raise ValueError(t)
+    return "(%s)" % t if t.startswith("-") else t
+
+
+def _fobs(d):
+    """dump of a float / int / error -> the acceptor's result record"""
+    import struct
+    if d is None or d.get("t") == "err":
+        return {"err": True, "big": False, "n": 0, "k": 0}
+    if d.get("t") == "int":
+        v = int(d["v"])
+        return {"err": False, "big": abs(v) >= 2 ** 30, "n": v if abs(v) < 2 ** 30 else 0, "k": 0}
+    x = struct.unpack("<d", struct.pack("<Q", int(d["bits"])))[0]
+    num, den = x.as_integer_ratio()
+    k = den.bit_length() - 1
+    if abs(num) >= 2 ** 30 or k > 200:
+        return {"err": False, "big": True, "n": 0, "k": 0}
+    return {"err": False, "big": False, "n": num, "k": k}
+
+
+def float_cases(seed, n):
+    rnd = random.Random(seed * 31337 + 2)
+    small = lambda: _dy(rnd.randint(-31, 31), rnd.randint(0, 4))
+    mid = lambda: _dy(rnd.randint(-4000, 4000), rnd.randint(0, 6))
+    sq = lambda: _dy(rnd.randint(0, 40) ** 2, 2 * rnd.randint(0, 3))
+    cases = []
+    for i in range(n):
+        op = rnd.choice(["add", "sub", "mul", "pow", "pow", "pow", "powi", "sqrt", "floor", "ceil", "neg", "abs"])
+        b = {"n": 0, "k": 0}
+        if op in ("add", "sub", "mul"):
+            a, b = mid(), mid()
+            src = "%s %s %s" % (_flit(a), {"add": "+", "sub": "-", "mul": "*"}[op], _flit(b))
+        elif op == "pow":
+            kind = rnd.randrange(5)
+            if kind == 0:
+                a, b = small(), _dy(rnd.randint(0, 6), 0)
+            elif kind == 1:
+                a, b = _dy(0, 0), rnd.choice([_dy(1, 1), _dy(1, 2), _dy(3, 2), _dy(3, 1), _dy(2, 0), _dy(127, 7), _dy(1, 0)])
+            elif kind == 2:
+                a, b = sq(), _dy(1, 1)
+            elif kind == 3:
+                a, b = _dy(rnd.randint(1, 31), rnd.randint(0, 3)), rnd.choice([_dy(1, 1), _dy(1, 2), _dy(3, 2), _dy(5, 1)])
+            else:
+                a, b = small(), rnd.choice([_dy(0, 0), _dy(-1, 0), _dy(-1, 1), _dy(1, 1)])
+            src = "%s ** %s" % (_flit(a), _flit(b))
+        elif op == "powi":
+            a, b = small(), _dy(rnd.randint(-1, 6), 0)
+            src = "%s ** %s" % (_flit(a), "(%d)" % b["n"] if b["n"] < 0 else str(b["n"]))
+        elif op == "sqrt":
+            a = rnd.choice([sq, sq, small])()
+            src = "sqrt(%s)" % _flit(a)
+        else:
+            a = mid()
+            src = {"floor": "floor(%s)", "ceil": "ceil(%s)", "neg": "-%s", "abs": "abs(%s)"}[op] % _flit(a)
+        cases.append({"op": op, "a": a, "b": b, "src": src})
+    return cases
+
+
+def floats_part(chk, tier, seed):
+    cases = float_cases(seed, 1500 if tier == "quick" else 15000)
+    jobs, B = [], 100
+    for b0 in range(0, len(cases), B):
+        chunk = cases[b0:b0 + B]
+        jobs.append({"id": "fx%d" % b0, "src": "".join("let x%d = %s;\n" % (i, c["src"]) for i, c in enumerate(chunk)),
+                     "observe": ["x%d" % i for i in range(len(chunk))], "_chunk": chunk})
+    res = vf.run_jobs([{k: v for k, v in j.items() if k != "_chunk"} for j in jobs], "c02-floats")
+    recs = []
+    for j in jobs:
+        o = res[j["id"]]
+        if vf.job_outcome(o) != "ok":
+            chk.violation("float operator program: %s %s" % (vf.job_outcome(o), str(o.get("compile", {}).get("msg") or o.get("inst") or o.get("crash"))[:300]),
+                          {"kind": "float", "source": j["src"], "observed": vf.job_outcome(o)})
+            continue
+        for i, c in enumerate(j["_chunk"]):
+            chk.count(1)
+            chk.nontrivial(c["src"])
+            recs.append({"ev": "Fx", "op": c["op"], "a": c["a"], "b": c["b"], "r": _fobs(o["values"].get("x%d" % i)), "_src": c["src"],
+                         "_got": o["values"].get("x%d" % i)})
+    for t in vf.accept_records(chk, "XrFloatExact", recs, "c02-floats"):
+        chk.violation("float operator: `%s` gives %s, which is not the exact result" % (t["_src"], json.dumps({k: t["_got"].get(k) for k in ("t", "v", "m")} if t["_got"] else None)),
+                      {"kind": "float", "source": "let x0 = %s;\n" % t["_src"], "record": {k: v for k, v in t.items() if not k.startswith("_")}},
+                      finding_key="float:" + t["op"])
+    chk.part("floats", cases=len(cases), validated=len(recs))
+
+
 def run(chk, tier, seed):
+    if os.environ.get("VERIF_ONLY") == "floats":          # development aid: one part alone
+        floats_part(chk, tier, seed)
+        return
     precedence(chk, tier)
+    floats_part(chk, tier, seed)
     n1, n2 = (500, 60) if tier == "quick" else (5000, 600)
     progs = []
     for i in range(n1):
@@ -219,5 +322,18 @@ def replay(chk, path):
         chk.sample({"chain": rp["chain"], "observed": got})
         if not corecheck.same(rp["expected"], got):
             chk.violation("operator chain `%s` still deviates" % rp["chain"], rp)
+        return chk.finish()
+    if rp.get("kind") == "float":
+        o = vf.run_jobs([{"id": "r", "src": rp["source"], "observe": ["x0"]}], "replay")["r"]
+        chk.count(1)
+        chk.nontrivial("replay")
+        chk.nontrivial(rp["source"])
+        if vf.job_outcome(o) != "ok" or "record" not in rp:
+            if vf.job_outcome(o) != "ok":
+                chk.violation("still " + vf.job_outcome(o), rp)
+            return chk.finish()
+        rec = dict(rp["record"], r=_fobs(o["values"].get("x0")))
+        if vf.accept_records(chk, "XrFloatExact", [rec], "c02-replay-floats"):
+            chk.violation("still not the exact result", rp)
         return chk.finish()
     return corecheck.replay_core(chk, path)
